@@ -4,7 +4,10 @@
 //! order and the ledger must be empty.
 //! Line:  E1 odd=<0|1> <op>=<ok|panic>|<ret>|<events>|<state> ... end=...
 use crate::ledger::{self, tr, untracked, Ev};
-use crate::rng::{hex, Rng};
+use crate::rng::Rng;
+use std::sync::atomic::{AtomicBool, Ordering as AO};
+/// big mode: buffers of 1 KiB .. 128 KiB (scale-dependent code paths: original-capacity classes, large offsets, reclaim thresholds)
+pub static BIG: AtomicBool = AtomicBool::new(false);
 use bytes::{Buf, Bytes, BytesMut};
 use std::io::Write;
 use std::panic::{catch_unwind, AssertUnwindSafe};
@@ -14,7 +17,18 @@ struct Own { data: Vec<u8>, id: u32, panics: bool }
 impl AsRef<[u8]> for Own { fn as_ref(&self) -> &[u8] { ledger::note_owner(true, self.id); if self.panics { panic!("as_ref refuses") } &self.data } }
 impl Drop for Own { fn drop(&mut self) { ledger::note_owner(false, self.id); } }
 
-fn unhx(s: &str) -> Vec<u8> { crate::e_buf::unhx(s) }
+/// `z<seed>x<len>`: a long pattern (the model driver regenerates it); otherwise hex
+fn unhx(s: &str) -> Vec<u8> {
+    if let Some(rest) = s.strip_prefix('z') { let (a, b) = rest.split_once('x').unwrap(); let (seed, len): (usize, usize) = (a.parse().unwrap(), b.parse().unwrap()); return (0..len).map(|i| zbyte(seed, i)).collect(); }
+    crate::e_buf::unhx(s)
+}
+pub fn zbyte(seed: usize, i: usize) -> u8 { (seed.wrapping_add(i.wrapping_mul(131)).wrapping_add((i / 251).wrapping_mul(17)) & 0xff) as u8 }
+/// contents of a handle: hex up to 96 bytes, beyond that length and FNV-1a 64 of the bytes (the model driver prints the same form)
+fn hex(bs: &[u8]) -> String {
+    if bs.len() <= 96 { return crate::rng::hex(bs); }
+    let mut h: u64 = 0xcbf29ce484222325; for b in bs { h ^= *b as u64; h = h.wrapping_mul(0x100000001b3); }
+    format!("#{}_{:016x}", bs.len(), h)
+}
 fn loc(p: *const u8) -> String {
     match ledger::locate(p as usize) { Some((id, ofs, live, kind)) => format!("{}{}{}:{}", if kind == 2 { "s" } else { "" }, id, if live { "" } else { "!dead" }, ofs), None => if (p as usize) < 4096 { "d:0".into() } else { "x:0".into() } }
 }
@@ -101,6 +115,24 @@ fn exec(st: &mut St, f: &[&str], op: &str) -> Ret {
         "madv" => { st.m(n(1)).advance(n(2)); Ret::Unit }
         "mclone" => { let c = st.m(n(1)).clone(); Ret::New(H::M(c)) }
         "vbytes" => { match st.take(n(1)) { H::V(v) => Ret::New(H::B(Bytes::from(v))), _ => panic!("harness") } }
+        // ---- further public entry points; the model driver maps each to the operation(s) the source defines it by (run_heap.ml: expand) ----
+        "bcopy" => { let d = untracked(|| unhx(f[1])); Ret::New(H::B(Bytes::copy_from_slice(&d))) }
+        "bfbox" => { let d = untracked(|| unhx(f[1])); let b: Box<[u8]> = Box::from(&d[..]); Ret::New(H::B(Bytes::from(b))) }
+        "bfstr" => { let d = untracked(|| String::from_utf8(unhx(f[1])).expect("harness: ascii")); let cap = n(2).max(d.len()); let mut s2 = String::with_capacity(cap); s2.push_str(&d); Ret::New(H::B(Bytes::from(s2))) }
+        "bfiter" => { let d = untracked(|| unhx(f[1])); Ret::New(H::B(d.iter().copied().collect::<Bytes>())) }
+        "mfiter" => { let d = untracked(|| unhx(f[1])); Ret::New(H::M(if f[2] == "1" { d.iter().collect::<BytesMut>() } else { d.iter().copied().collect::<BytesMut>() })) }
+        "mfstr" => { let d = untracked(|| String::from_utf8(unhx(f[1])).expect("harness: ascii")); Ret::New(H::M(BytesMut::from(&d[..]))) }
+        "mextb" => { let chunks: Vec<Bytes> = untracked(|| if f[2] == "~" { vec![] } else { f[2].split(',').map(|c| Bytes::from_static(Box::leak(unhx(c).into_boxed_slice()))).collect() });
+                     st.m(n(1)).extend(chunks.iter().cloned()); untracked(|| drop(chunks)); Ret::Unit }
+        "mextr" => { let d = untracked(|| unhx(f[2])); st.m(n(1)).extend(d.iter()); Ret::Unit }
+        "mput" => { let d = untracked(|| unhx(f[2])); bytes::BufMut::put_slice(st.m(n(1)), &d); Ret::Unit }
+        "mputb" => { bytes::BufMut::put_bytes(st.m(n(1)), n(2) as u8, n(3)); Ret::Unit }
+        "mfmt" => { let d = untracked(|| String::from_utf8(unhx(f[2])).expect("harness: ascii")); let r = std::fmt::Write::write_str(st.m(n(1)), &d); Ret::Bool(r.is_ok()) }
+        "msetlen" => { let m = st.m(n(1)); if n(2) > m.len() { panic!("harness: set_len beyond the initialised part") } unsafe { m.set_len(n(2)) }; Ret::Unit }
+        "mspare" => { let d = untracked(|| unhx(f[2])); let m = st.m(n(1)); let len = m.len(); let sp = m.spare_capacity_mut(); if d.len() > sp.len() { panic!("harness: spare too small") }
+                      for (i, b) in d.iter().enumerate() { sp[i].write(*b); } unsafe { m.set_len(len + d.len()) }; Ret::Unit }
+        "mctb" => { let c = bytes::Buf::copy_to_bytes(st.m(n(1)), n(2)); st.hs.push(None); Ret::New(H::B(c)) }   // BytesMut: split_to(len).freeze() -- two handle ids, as in the model
+        "mputbuf" => { let src = match st.take(n(2)) { H::B(b) => b, _ => panic!("harness") }; bytes::BufMut::put(st.m(n(1)), src); Ret::Unit }
         _ => { let _ = op; panic!("harness: unknown op") }
     }
 }
@@ -133,30 +165,58 @@ fn finish(st: &mut St, rng: &mut Rng, o: &mut String) {
 }
 
 // ------------------------------------------------------------------------------------------ generator
+/// landmarks for positions inside a buffer of `len` bytes; big mode adds the sizes at which size-dependent code could switch behaviour
+fn marks(base: &[usize], len: usize) -> Vec<usize> {
+    let mut v = base.to_vec();
+    if BIG.load(AO::Relaxed) { for k in [17usize, 64, 1000, 1024, 4096, 16384, 65536] { if k <= len { v.push(k); v.push(len - k); } } }
+    v
+}
 fn arg_around(rng: &mut Rng, vals: &[usize]) -> usize {
     let v = *rng.pick(vals);
     match rng.below(10) { 0 => v.saturating_sub(1), 1 => v.saturating_add(1), _ => v }
 }
 /// arguments that cannot be represented / allocated: near usize::MAX or just above isize::MAX (never a size the allocator would really be asked for)
 fn big(rng: &mut Rng) -> usize { let k = rng.below(48) as usize; if rng.chance(1, 2) { usize::MAX - k } else { isize::MAX as usize + 1 + k } }
-fn gen_data(rng: &mut Rng) -> Vec<u8> { let n = match rng.below(40) { 0..=2 => 0, 3..=5 => rng.range(30, 70), 6 => rng.range(1000, 1100), _ => rng.range(1, 14) } as usize; let base = rng.next() as u8; (0..n).map(|i| base.wrapping_add(i as u8)).collect() }
+/// token of a generated byte string for an operation argument: hex, or z<seed>x<len> for long patterns
+fn enc(d: &[u8]) -> String {
+    if d.len() > 96 { let seed = d[0] as usize; if d.iter().enumerate().all(|(i, b)| *b == zbyte(seed, i)) { return format!("z{}x{}", seed, d.len()); } }
+    crate::rng::hex(d)
+}
+fn gen_data(rng: &mut Rng) -> Vec<u8> {
+    if BIG.load(AO::Relaxed) && rng.chance(2, 3) {
+        let n = match rng.below(12) { 0 => 1000 + rng.below(100), 1 => 1024, 2 => 4096 - rng.below(3), 3 => 4096 + rng.below(9), 4 => 8192, 5 => 16384 + rng.below(2), 6 => 40000 + rng.below(100), 7 => 65536 - rng.below(2), 8 => 65536 + rng.below(9), 9 => 131072, _ => 2000 + rng.below(6000) } as usize;
+        let seed = rng.below(256) as usize; return (0..n).map(|i| zbyte(seed, i)).collect();
+    }
+    gen_data_small(rng)
+}
+fn gen_data_small(rng: &mut Rng) -> Vec<u8> { let n = match rng.below(40) { 0..=2 => 0, 3..=5 => rng.range(30, 70), 6 => rng.range(1000, 1100), _ => rng.range(1, 14) } as usize; let base = rng.next() as u8; (0..n).map(|i| base.wrapping_add(i as u8)).collect() }
+thread_local! { static LAST: std::cell::Cell<Option<usize>> = std::cell::Cell::new(None);
+                /// focused history: one or two handles, mostly the operations of a codec buffer (advance, reserve, extend, split_to, try_reclaim, clear, freeze, conversions)
+                static FOCUS: std::cell::Cell<bool> = std::cell::Cell::new(false); }
 fn gen_op(rng: &mut Rng, st: &St, last_split: &mut Option<(usize, usize)>, wild: bool) -> String {
     let live: Vec<usize> = (0..st.hs.len()).filter(|&i| st.hs[i].is_some()).collect();
-    if live.is_empty() || (live.len() < 7 && rng.chance(1, 5)) {
+    let focus = FOCUS.with(|f| f.get());
+    if live.is_empty() || (if focus { live.len() < 2 && rng.chance(1, 6) } else { live.len() < 7 && rng.chance(1, 5) }) {
         let d = gen_data(rng);
-        return match rng.below(12) {
-            0 => "bnew".into(), 1 => format!("bstatic:{}", hex(&d)), 2 | 3 => format!("bfv:{}:{}", hex(&d), d.len()), 4 => format!("bfv:{}:{}", hex(&d), d.len() + 1 + rng.below(9) as usize),
-            5 => format!("bowner:{}:{}", hex(&d), if rng.chance(1, 8) { 1 } else { 0 }), 6 => "mnew".into(),
-            7 => format!("mcap:{}", *rng.pick(&[0usize, 1, 8, 16, 64, 100, 1024, 2000, 4096, 70000])), 8 => format!("mzero:{}", rng.below(20)),
-            _ => format!("mslice:{}", hex(&d)),
+        let asc = |rng: &mut Rng| -> Vec<u8> { gen_data_small(rng).iter().map(|b| 0x20 + b % 95).collect() };
+        return match rng.below(19) {
+            12 => format!("bcopy:{}", enc(&d)), 13 => format!("bfbox:{}", enc(&d)), 14 => { let a = asc(rng); format!("bfstr:{}:{}", crate::rng::hex(&a), a.len() + if rng.chance(1, 2) { 0 } else { rng.below(9) as usize }) }
+            15 => format!("bfiter:{}", enc(&d)), 16 => format!("mfiter:{}:{}", enc(&d), rng.below(2)), 17 => format!("mfstr:{}", crate::rng::hex(&asc(rng))),
+            0 => "bnew".into(), 1 => format!("bstatic:{}", enc(&d)), 2 | 3 => format!("bfv:{}:{}", enc(&d), d.len()), 4 => format!("bfv:{}:{}", enc(&d), d.len() + 1 + rng.below(9) as usize),
+            5 => format!("bowner:{}:{}", enc(&d), if rng.chance(1, 8) { 1 } else { 0 }), 6 => "mnew".into(),
+            7 => format!("mcap:{}", if BIG.load(AO::Relaxed) { *rng.pick(&[1024usize, 1023, 2048, 4096, 8192, 16384, 32768, 65536, 65537, 70000, 131072, 200000]) } else { *rng.pick(&[0usize, 1, 8, 16, 64, 100, 1024, 2000, 4096, 70000]) }), 8 => format!("mzero:{}", rng.below(20)),
+            _ => format!("mslice:{}", enc(&d)),
         };
     }
-    let i = *rng.pick(&live);
+    // locality: two times in five the handle of the previous operation again (sequences such as advance -> reserve -> extend on one handle)
+    let i = match LAST.with(|l| l.get()) { Some(l) if live.contains(&l) && rng.chance(2, 5) => l, _ => *rng.pick(&live) };
+    LAST.with(|l| l.set(Some(i)));
     match st.hs[i].as_ref().unwrap() {
         H::B(b) => {
             let len = b.len();
-            let idx = |rng: &mut Rng| -> usize { if wild && rng.chance(1, 6) { if rng.chance(1, 2) { len + 1 + rng.below(3) as usize } else { big(rng) } } else { arg_around(rng, &[0, 1, len / 2, len.saturating_sub(1), len]).min(if wild { usize::MAX } else { len }) } };
-            match rng.below(20) {
+            let idx = |rng: &mut Rng| -> usize { if wild && rng.chance(1, 6) { if rng.chance(1, 2) { len + 1 + rng.below(3) as usize } else { big(rng) } } else { arg_around(rng, &marks(&[0, 1, len / 2, len.saturating_sub(1), len], len)).min(if wild { usize::MAX } else { len }) } };
+            let draw = if focus && rng.chance(3, 4) { *rng.pick(&[14u64, 14, 13, 9, 9, 8, 18, 18, 10, 0]) } else { rng.below(20) };
+            match draw {
                 0 | 1 => format!("bclone:{}", i),
                 2 | 3 => { let a = idx(rng); let b2 = idx(rng); let (a, b2) = if a <= b2 || (wild && rng.chance(1, 4)) { (a, b2) } else { (b2, a) }; format!("bslice:{}:{}:{}", i, a, b2) }
                 4 => { let a = idx(rng); let e = if wild && rng.chance(1, 5) { usize::MAX } else { idx(rng) }; format!("bslicei:{}:{}:{}", i, a.min(e), e) }
@@ -170,8 +230,18 @@ fn gen_op(rng: &mut Rng, st: &St, last_split: &mut Option<(usize, usize)>, wild:
         H::M(m) => {
             let (len, cap) = (m.len(), m.capacity());
             let bsz = ledger::block_size(m.as_ptr() as usize).unwrap_or(cap);
-            let idx = |rng: &mut Rng, top: usize| -> usize { if wild && rng.chance(1, 6) { if rng.chance(1, 2) { top + 1 + rng.below(3) as usize } else { big(rng) } } else { arg_around(rng, &[0, 1, len / 2, len.saturating_sub(1), len, cap]).min(if wild { usize::MAX } else { top }) } };
-            match rng.below(26) {
+            let idx = |rng: &mut Rng, top: usize| -> usize { if wild && rng.chance(1, 6) { if rng.chance(1, 2) { top + 1 + rng.below(3) as usize } else { big(rng) } } else { arg_around(rng, &marks(&[0, 1, len / 2, len.saturating_sub(1), len, cap], len)).min(if wild { usize::MAX } else { top }) } };
+            let draw = if focus && rng.chance(3, 4) { *rng.pick(&[21u64, 21, 22, 8, 9, 10, 10, 11, 13, 13, 2, 5, 6, 19, 29, 7]) } else { rng.below(37) };
+            match draw {
+                26 | 27 => { let k = *rng.pick(&[0usize, 1, 2, 3, 5, 15, 16, 17, 18, 31, 32, 33, 40]); let mut cs = vec![]; for _ in 0..k { let l = rng.below(5) as usize; let b0 = rng.next() as u8; let c: Vec<u8> = (0..l).map(|j| b0.wrapping_add(j as u8)).collect(); cs.push(if BIG.load(AO::Relaxed) && rng.chance(1, 12) { enc(&gen_data(rng)) } else { crate::rng::hex(&c) }); }
+                             format!("mextb:{}:{}", i, if cs.is_empty() { "~".to_string() } else { cs.join(",") }) }
+                28 => { let d = gen_data(rng); let d = if d.len() > 40 { d[..40].to_vec() } else { d }; format!("mextr:{}:{}", i, crate::rng::hex(&d)) }   // byte-at-a-time loop in the model: short data 29 => format!("mput:{}:{}", i, enc(&gen_data(rng))),
+                30 => format!("mputb:{}:{}:{}", i, rng.below(256), arg_around(rng, &[0, 1, cap - len, cap - len + 1, 64, 2000])),
+                31 => { let a: Vec<u8> = gen_data_small(rng).iter().map(|b| 0x20 + b % 95).collect(); format!("mfmt:{}:{}", i, crate::rng::hex(&a)) }
+                32 => format!("msetlen:{}:{}", i, arg_around(rng, &[0, 1, len / 2, len.saturating_sub(1), len]).min(len)),
+                33 => { let room = cap - len; let k = arg_around(rng, &[0, 1, room / 2, room]).min(room).min(64); let b0 = rng.next() as u8; let c: Vec<u8> = (0..k).map(|j| b0.wrapping_add(j as u8)).collect(); format!("mspare:{}:{}", i, crate::rng::hex(&c)) }
+                34 => format!("mctb:{}:{}", i, idx(rng, len)),
+                35 | 36 => { let bs: Vec<usize> = live.iter().copied().filter(|&j| matches!(st.hs[j], Some(H::B(_)))).collect(); if bs.is_empty() { format!("mput:{}:{}", i, enc(&gen_data(rng))) } else { format!("mputbuf:{}:{}", i, *rng.pick(&bs)) } }
                 0 | 1 => { let at = idx(rng, cap); *last_split = Some((i, st.hs.len())); format!("msplitoff:{}:{}", i, at) }
                 2 | 3 => { let at = idx(rng, len); *last_split = Some((st.hs.len(), i)); format!("msplitto:{}:{}", i, at) }
                 4 => { *last_split = Some((st.hs.len(), i)); format!("msplit:{}", i) }
@@ -179,8 +249,8 @@ fn gen_op(rng: &mut Rng, st: &St, last_split: &mut Option<(usize, usize)>, wild:
                 7 => format!("mresize:{}:{}:{}", i, if wild && rng.chance(1, 8) { big(rng) } else { arg_around(rng, &[0, len, cap.min(len + 70), (cap + 3).min(len + 90), len + 1]) }, rng.below(256)),
                 8 | 9 | 10 => format!("mreserve:{}:{}", i, if rng.chance(1, 6) { big(rng) } else { arg_around(rng, &[0, 1, cap - len, cap - len + 1, cap, 2 * cap + 1, 64, 2000, bsz, bsz.saturating_sub(len)]) }),
                 11 | 12 => format!("mreclaim:{}:{}", i, if rng.chance(1, 6) { big(rng) } else { arg_around(rng, &[0, 1, cap - len, cap - len + 1, cap, cap + 8, 64, bsz, bsz, bsz.saturating_sub(len), bsz / 2 + 1]) }),
-                13 | 14 => format!("mext:{}:{}", i, hex(&gen_data(rng))),
-                15 => { let d = gen_data(rng); let d = if d.len() > 40 { d[..40].to_vec() } else { d }; let hint = match rng.below(4) { 0 => 0, 1 => d.len(), 2 => d.len() / 2, _ => d.len() + 3 }; format!("mexti:{}:{}:{}", i, hex(&d), hint) }
+                13 | 14 => format!("mext:{}:{}", i, enc(&gen_data(rng))),
+                15 => { let d = gen_data(rng); let d = if d.len() > 40 { d[..40].to_vec() } else { d }; let hint = match rng.below(4) { 0 => 0, 1 => d.len(), 2 => d.len() / 2, _ => d.len() + 3 }; format!("mexti:{}:{}:{}", i, crate::rng::hex(&d), hint) }
                 16 => format!("mwrite:{}:{}:{}", i, if len == 0 || (wild && rng.chance(1, 5)) { len + rng.below(2) as usize } else { rng.below(len as u64) as usize }, rng.below(256)),
                 17 | 18 => { // unsplit: prefer re-joining the halves of the last split, else any other BytesMut
                     let others: Vec<usize> = live.iter().copied().filter(|&j| j != i && matches!(st.hs[j], Some(H::M(_)))).collect();
@@ -206,10 +276,12 @@ pub fn heap_random_mode(out: &mut dyn Write, seed: u64, n: usize, odd: bool, wil
         let nops = rng.range(3, maxops);
         let wild = rng.below(100) < wild_pct;
         let mut last_split = None;
+        LAST.with(|l| l.set(None));
+        let fc = rng.chance(if BIG.load(AO::Relaxed) { 3 } else { 1 }, 6); FOCUS.with(|f| f.set(fc));
         crate::progress(&o);
         if arena && rng.chance(1, 3) {
             let sz = *rng.pick(&[2usize, 8, 16, 64]); let d1 = rng.bytes(sz); let d2 = rng.bytes(sz);
-            for op in [format!("mslice:{}", hex(&d1)), format!("mslice:{}", hex(&d2)), format!("msplitoff:1:{}", sz), format!("msplitoff:2:{}", sz), "mdrop:3".to_string(), "mdrop:4".to_string(), "munsplit:1:2".to_string()] { step(&mut st, &op, &mut o); }
+            for op in [format!("mslice:{}", crate::rng::hex(&d1)), format!("mslice:{}", crate::rng::hex(&d2)), format!("msplitoff:1:{}", sz), format!("msplitoff:2:{}", sz), "mdrop:3".to_string(), "mdrop:4".to_string(), "munsplit:1:2".to_string()] { step(&mut st, &op, &mut o); }
         }
         for _ in 0..nops {
             let op = gen_op(&mut rng, &st, &mut last_split, wild);
